@@ -1,6 +1,11 @@
 # ./check configuration for C13 (merged by mc/props.py)
 PROP = dict(
-    pkg=".", test="TestVerifC13", files=["mc/c13/*.go"], libs=["explore", "canon", "sim", "wireobs", "wiremon"],
+    libs=["explore", "canon", "sim", "wireobs", "wiremon"],
+    targets=[
+        dict(name="e2", pkg=".", test="TestVerifC13", files=["mc/c13/*.go"], parts=["faults", "injections"]),
+        dict(name="race", pkg=".", test="TestVerifC13Race", files=["mc/c13/*.go", "mc/c13/race/*.go"], parts=["handshake-race-pass"],
+             race=True, shards=4, gomaxprocs=4, env={"GORACE": "halt_on_error=1", "GODEBUG": "randseednop=0"}),
+    ],
     engine="E2 simx", level="fault_enumeration", shards="ncpu", gomaxprocs=1,
     env={"GODEBUG": "randseednop=0,asyncpreemptoff=1"},
     deterministic=False, crash_is_violation=True,
